@@ -781,26 +781,30 @@ class C09(Property):
             cases.insert((i + 1) * len(cases) // (len(fixed) + 1), c)
         return cases
 
-    def _heavy_case(self):
-        """unusual request targets, a 300-segment pattern, 5000- and 20000-byte segments: the most expensive fixed case,
-        kept out of corpus() so that it does not share a Coq shard with all the other corpus cases"""
-        return {"nf": False, "na": False,
-             "regs": [["GET", "/a/:x/c"], ["GET", "/a/b"], ["GET", "/é/:名"], ["POST", "/a b/:x"], ["GET", "/%2F/:x"], ["GET", "/:x/:y/:z/:w"],
-                      ["PUT", "/a:b/:"], ["GET", "/*"], ["GET", "/" + "/".join(["s%d" % i for i in range(300)]) + "/:last"],
-                      ["GET", "/" + "L" * 5000]],
+    def _heavy_cases(self):
+        """unusual request targets; a 120-segment pattern; 1500- and 4000-byte segments, 800-segment paths.  Three separate
+        cases outside corpus(): one coqc shard holding them all (and the whole corpus) was by far the largest process of a run and
+        the first victim when the machine ran out of memory"""
+        small = [["GET", "/a/:x/c"], ["GET", "/a/b"], ["GET", "/é/:名"], ["POST", "/a b/:x"], ["GET", "/%2F/:x"], ["GET", "/:x/:y/:z/:w"],
+                 ["PUT", "/a:b/:"], ["GET", "/*"]]
+        deep = "/" + "/".join(["s%d" % i for i in range(120)])
+        return [
+            {"nf": False, "na": False, "regs": small,
              "reqs": [["GET", "/a/x%2Fy/c", "raw"], ["GET", "/a/%62", "raw"], ["GET", "/a/b?x=/c/d", "raw"], ["GET", "/a/b#f", "raw"],
                       ["GET", "/a/%2e%2e/a/b", "raw"], ["GET", "/a/./b/", "raw"], ["GET", "//a//b//", "raw"], ["GET", "/a/../../a/b", "raw"],
                       ["GET", "/%C3%A9/v%C3%A4rde", "raw"], ["GET", "/é/värde"], ["GET", "/é/日本"], ["POST", "/a%20b/1", "raw"], ["POST", "/a b/1"],
                       ["GET", "/%252F/1", "raw"], ["GET", "/%2F/1", "raw"], ["GET", "/%2F/1"], ["GET", "http://other.host/a/b", "raw"],
                       ["GET", "/a/b/c/d"], ["GET", "/a/b/c/d/e"], ["PUT", "/a:b/1"], ["PUT", "/a:b/"], ["GET", "/*"], ["GET", "/x"],
-                      ["GET", "/" + "/".join(["s%d" % i for i in range(300)]) + "/end"],
-                      ["GET", "/" + "/".join(["s%d" % i for i in range(299)]) + "/x/end"],
-                      ["GET", "/" + "L" * 5000], ["GET", "/" + "L" * 4999], ["GET", "/a/" + "v" * 20000 + "/c"],
-                      ["GET", "/" + "../" * 400 + "a/b"], ["GET", "/" + "z/" * 400 + "../" * 400 + "a/b", "raw"],
-                      ["GET", "/a/:x/c"], ["GET", "/a/%3Ax/c", "raw"], ["GET", "/a//c"], ["GET", "/a/ /c"]]}
+                      ["GET", "/a/:x/c"], ["GET", "/a/%3Ax/c", "raw"], ["GET", "/a//c"], ["GET", "/a/ /c"]]},
+            {"nf": False, "na": False, "regs": [["GET", deep + "/:last"], ["GET", "/a/b"], ["POST", deep]],
+             "reqs": [["GET", deep + "/end"], ["GET", deep[:-4] + "/x/end"], ["PUT", deep + "/end"], ["POST", deep + "/"], ["GET", deep],
+                      ["GET", "/" + "../" * 400 + "a/b"], ["GET", "/" + "z/" * 400 + "../" * 400 + "a/b", "raw"]]},
+            {"nf": False, "na": False, "regs": [["GET", "/" + "L" * 1500], ["GET", "/a/:x/c"]],
+             "reqs": [["GET", "/" + "L" * 1500], ["GET", "/" + "L" * 1499], ["POST", "/" + "L" * 1500], ["GET", "/a/" + "v" * 4000 + "/c"]]},
+        ]
 
     def _fixed_families(self):
-        return [self._heavy_case()] + self._spelling_cases() + self._cleaning_cases()
+        return self._heavy_cases() + self._spelling_cases() + self._cleaning_cases()
 
     # ---- deterministic families for the other seeded classes (each seed of seeded/C09-* is caught by one of them,
     # whatever VERIF_SEED is) -------------------------------------------------------------------------------------
